@@ -10,7 +10,7 @@ static int c06_alive(Buf *b) {   /* does the running TPM answer commands? */
 /* one mutated blob through the three doors. kind: 0 perm, 1 vol. good blobs given for the other type. */
 static void c06_try(Buf *b, int kind, const uint8_t *m, uint32_t mn, const Blob *gperm, const Blob *gvol, const char *desc) {
     c06_n++;
-    tr_begin("mut n=%ld kind=%s desc=%s len=%u", c06_n, kind ? "vol" : "perm", desc, mn); tr_end(); fflush(g_tr);
+    tr_begin("mut n=%ld kind=%s desc=%s len=%u", c06_n, kind ? "vol" : "perm", desc, mn); trhex("head", m, mn < 8 ? mn : 8); tr_end(); fflush(g_tr);
     /* door 1: TPMLIB_SetState */
     TPMLIB_Terminate(); storage_reset();
     TPM_RESULT s0 = 0, s1;
@@ -44,7 +44,7 @@ static void c06_mutations(Buf *b, int kind, const Blob *target, const Blob *gper
     static const uint16_t BV[] = {0, 1, 2, 0x7f, 0x80, 0xff, 0x100, 0x7fff, 0x8000, 0xfffe, 0xffff};
     for (int i = 0; i < budget; i++) {
         memcpy(m, target->p, target->n); uint32_t mn = target->n;
-        switch (rnd(10)) {
+        switch (rnd(11)) {
         case 0: mn = rnd(mn); snprintf(desc, sizeof desc, "trunc@%u", mn); break;
         case 1: { uint32_t o = rnd(mn); m[o] ^= 1 << rnd(8); snprintf(desc, sizeof desc, "bit@%u", o); break; }
         case 2: case 3: { uint32_t o = rnd(mn - 1); uint16_t v = BV[rnd(11)]; m[o] = v >> 8; m[o + 1] = v; snprintf(desc, sizeof desc, "u16@%u=%u", o, v); break; }
@@ -57,6 +57,13 @@ static void c06_mutations(Buf *b, int kind, const Blob *target, const Blob *gper
             if (f >= 2) { int w = rnd(3); uint16_t v = BV[rnd(11)]; uint32_t p = w == 0 ? (uint32_t)f - 2 : (w == 1 ? (uint32_t)f + 4 : (uint32_t)f + (uint32_t)rnd(4)); if (p + 2 <= mn) { m[p] = v >> 8; m[p + 1] = v; } snprintf(desc, sizeof desc, "hdr@%ld.%d=%u", f, w, v); }
             else snprintf(desc, sizeof desc, "hdr-none");
             break; }
+        case 10: { /* the outermost header: version, magic, min_version — next to what this implementation writes and far from it */
+            int w = rnd(3); uint16_t cur = (uint16_t)((m[0] << 8) | m[1]);
+            uint16_t v = (uint16_t[]){0, 1, 2, cur, (uint16_t)(cur + 1), (uint16_t)(cur - 1), 0x7fff, 0xffff}[rnd(8)];
+            uint32_t p = w == 0 ? 0 : w == 1 ? 2 + 2 * rnd(2) : 6;
+            if (w == 1) v = (uint16_t)(((m[p] << 8) | m[p + 1]) ^ (1u << rnd(16)));
+            if (p + 2 <= mn) { m[p] = v >> 8; m[p + 1] = v; }
+            snprintf(desc, sizeof desc, "outer-%s=%u", w == 0 ? "version" : w == 1 ? "magic" : "minversion", v); break; }
         case 6: { /* splice: tail of the blob replaced by bytes from elsewhere */
             uint32_t o = rnd(mn), src = rnd(mn), len = rnd(64); for (uint32_t k = 0; k < len && o + k < mn && src + k < mn; k++) m[o + k] = target->p[src + k]; snprintf(desc, sizeof desc, "splice@%u<-%u", o, src); break; }
         case 7: { /* over-long */ uint32_t add = 1 + rnd(32); for (uint32_t k = 0; k < add; k++) m[mn + k] = rnd(256); mn += add; snprintf(desc, sizeof desc, "extend+%u", add); break; }
